@@ -22,7 +22,7 @@ import (
 
 const (
 	Main     = -1
-	maxTasks = 16
+	maxTasks = 136
 	maxDec   = 1 << 20
 	// StepCap: a no-progress bound, not a length bound: the number of statements the
 	// tasks may execute without ANY task completing an operation. The most
